@@ -45,7 +45,7 @@ header line too) to collect `later_errors` - a superset of the further errors of
 may hide the start of a here-document whose body looks like a header).
 
 `swallow=True` reads the same text under the defect model of known finding KF-C07-1: an incomplete
-instruction takes the next non-blank, non-comment line as its missing argument even when that line is a
+instruction takes the next non-blank line as its missing argument even when that line is a
 header line (only if that line is a single token); a pending list continuation takes the header line that
 follows it as list elements.
 """
@@ -146,6 +146,9 @@ _FORMS = {
 }
 _FORMS = {k: re.compile('^' + v + '$') for k, v in _FORMS.items()}
 
+
+# lines between the braces of a FILES-SOURCE (`help syntax FILES-SOURCE`: one FILE-SPEC per line) or FILES-CONDITION
+_IN_BRACES_RE = re.compile(r'^((file|dir) %s( = (\{|<<[0-9a-zA-Z_-]+|%s))?|%s : type (file|dir)|\})$' % (_PATH, _STR, _PATH))
 
 _RESERVED = {'[', ']', '(', ')', '{', '}', '=', '|', ':', '!', '&&', '||'}  # strings only when quoted
 
@@ -438,16 +441,22 @@ class Reader:
         if not _FORMS[name].match(' '.join(tokens)):
             raise Ambiguous('instruction-outside-model')
         depth = 0
+        braces = 0
         k = start
         cont = False
         while True:
             toks = tokens if k == start else lines[k].split()
             if toks:
-                depth += toks.count('(') - toks.count(')') + toks.count('{') - toks.count('}')
-                if '{' in toks or '}' in toks:
-                    self.labels.add('braces-multi-line')
+                if braces > 0 and not _IN_BRACES_RE.match(' '.join(toks)):
+                    raise Ambiguous('instruction-outside-model')  # only these file specs / conditions are modelled
+                depth += toks.count('(') - toks.count(')')
                 if depth < 0:
                     raise bad('unbalanced-parenthesis')
+                if braces > 0 or (k == start and toks[-1] == '{'):
+                    # (braces are modelled only where a FILES-SOURCE / FILES-CONDITION starts at the end of the
+                    # first line; anywhere else `{` and `}` are just tokens of the lines of the instruction)
+                    braces += toks.count('{') - toks.count('}')
+                    self.labels.add('braces-multi-line')
                 if _HEREDOC_RE.match(toks[-1]) and len(toks) > 1:
                     marker = toks[-1][2:]
                     m = k + 1
@@ -466,7 +475,7 @@ class Reader:
                     if m == n - 1:
                         self.labels.add('here-doc-ends-at-eof')
                     k = m
-                    cont = depth > 0
+                    cont = depth > 0 or braces > 0
                 elif toks[-1] == '\\':
                     # "An unquoted \\ at END-OF-LINE makes the list continue on the next line"
                     self.labels.add('list-continuation')
@@ -487,7 +496,7 @@ class Reader:
                     cont = True
                     self.labels.add('operator-continuation')
                 else:
-                    cont = depth > 0
+                    cont = depth > 0 or braces > 0
             if not cont and name == 'run' and k + 1 < n and lines[k + 1].split()[:1] == ['-stdin']:
                 # help syntax program: STDIN "must appear on a separate line"
                 self.labels.add('program-stdin-on-next-line')
